@@ -5,6 +5,7 @@ most one at every sample.  Forward error analysis over the rationals.
 -/
 import H263V.Lemmas.F32Err
 import H263V.Lemmas.AnnexADefs
+import H263V.Lemmas.RlePlacement
 import Mathlib.Tactic.FieldSimp
 namespace H263V.Lemmas.IdctErr
 open H263V H263V.F32 H263V.Idct H263V.Rle H263V.Lemmas.F32Range H263V.Lemmas.F32Err
@@ -826,5 +827,339 @@ theorem vert_within_one (l : List Int) (hb : ∀ v ∈ l, v.natAbs ≤ 2048) (i 
     rw [getD_ofFn, dif_pos hi]
   rw [hm]
   exact line_core l hb (i / 8) (i % 8) hy hx s hs2
+
+/-! ### the DC shortcut -/
+
+theorem bq00_val : bq 0 0 = 11863283 / 16777216 := by
+  rw [basis_val]
+  have : (Gen.BASIS.getD 0 #[]).getD 0 (0, 0) = (11863283, -24) := by decide +kernel
+  rw [this]
+  norm_num
+
+/-- the 8x8 block with only the DC coefficient -/
+def dcBlock (v : Int) : Blk := (Array.replicate 64 (0 : Int)).set! 0 v
+
+theorem dcBlock_coef (v : Int) (r c : Nat) : coefQ (dcBlock v).toList r c = if 8 * r + c = 0 then (v : ℚ) else 0 := by
+  rw [coefQ_toList]
+  unfold dcBlock
+  by_cases h : 8 * r + c = 0
+  · rw [if_pos h, h]; simp [Array.getD_eq_getD_getElem?, Array.set!_eq_setIfInBounds]
+  · rw [if_neg h]
+    simp only [Array.getD_eq_getD_getElem?, Array.set!_eq_setIfInBounds, Array.getElem?_setIfInBounds]
+    rw [if_neg (by omega)]
+    by_cases hk : 8 * r + c < 64
+    · simp [hk]
+    · simp [hk]
+
+theorem R2_dcBlock (v : Int) (x y : Nat) : R2 (dcBlock v).toList x y = (v : ℚ) * dm 0 x * dm 0 y := by
+  have h0 : R1 (dcBlock v).toList 0 x = (v : ℚ) * dm 0 x := by
+    unfold R1
+    rw [sum_range8]
+    simp only [dcBlock_coef]
+    norm_num
+  have hz : ∀ r, 1 ≤ r → R1 (dcBlock v).toList r x = 0 := by
+    intro r h1
+    unfold R1
+    rw [sum_range8]
+    simp only [dcBlock_coef]
+    rw [if_neg (by omega), if_neg (by omega), if_neg (by omega), if_neg (by omega), if_neg (by omega), if_neg (by omega),
+      if_neg (by omega), if_neg (by omega)]
+    ring
+  unfold R2
+  rw [sum_range8, h0, hz 1 (by norm_num), hz 2 (by norm_num), hz 3 (by norm_num), hz 4 (by norm_num), hz 5 (by norm_num),
+    hz 6 (by norm_num), hz 7 (by norm_num)]
+  ring
+
+theorem prod_near (a b : ℚ) (ha : |11863283 / 16777216 / 2 - a| ≤ 9 * u) (hb : |11863283 / 16777216 / 2 - b| ≤ 9 * u) :
+    |1 / 8 - a * b| ≤ 14 * u := by
+  have hu := u_pos
+  have hc : |(11863283 / 16777216 / 2 : ℚ)| ≤ 9 / 25 := by rw [abs_of_pos (by norm_num)]; norm_num
+  have hu9 : 9 * u ≤ 1 / 100 := by unfold u; norm_num
+  have haa : |a| ≤ 37 / 100 := by
+    have := abs_sub_abs_le_abs_sub a (11863283 / 16777216 / 2)
+    rw [abs_sub_comm] at ha
+    linarith
+  have e : 1 / 8 - a * b = (1 / 8 - (11863283 / 16777216 / 2) * (11863283 / 16777216 / 2)) +
+      (a * (11863283 / 16777216 / 2 - b) + (11863283 / 16777216 / 2) * (11863283 / 16777216 / 2 - a)) := by ring
+  rw [e]
+  have t0 : |(1 / 8 - (11863283 / 16777216 / 2) * (11863283 / 16777216 / 2) : ℚ)| ≤ u := by
+    unfold u; rw [abs_le]; constructor <;> norm_num
+  have t1 : |a * (11863283 / 16777216 / 2 - b)| ≤ 37 / 100 * (9 * u) := by
+    rw [abs_mul]; exact mul_le_mul haa hb (abs_nonneg _) (by norm_num)
+  have t2 : |(11863283 / 16777216 / 2 : ℚ) * (11863283 / 16777216 / 2 - a)| ≤ 9 / 25 * (9 * u) := by
+    rw [abs_mul]; exact mul_le_mul hc ha (abs_nonneg _) (by norm_num)
+  have := abs_add_three (1 / 8 - (11863283 / 16777216 / 2) * (11863283 / 16777216 / 2) : ℚ)
+    (a * (11863283 / 16777216 / 2 - b)) ((11863283 / 16777216 / 2) * (11863283 / 16777216 / 2 - a))
+  rw [add_assoc] at this
+  linarith
+
+/-- the DC shortcut against a reference sample whose ideal value is `v * dm 0 p * dm 0 q` -/
+theorem dc_core (v : Int) (hv : v.natAbs ≤ 2048) (p q : Nat) (hx : p < 8) (hy : q < 8) (s : Int)
+    (hs2 : (s : ℚ) / ((S : ℚ) * (S : ℚ)) = (v : ℚ) * dm 0 p * dm 0 q) :
+    ((finishDc v).1 - clip (-256) 255 (roundDiv s (S * S))).natAbs ≤ 1 := by
+  have hu := u_pos
+  have hu1 : u ≤ 1 / 16 := by unfold u; norm_num
+  unfold finishDc
+  simp only
+  -- the value before rounding
+  obtain ⟨o1, o2⟩ := ofInt_bounds v hv
+  have hvq : |(v : ℚ)| ≤ 2048 := by rw [abs_cast]; exact_mod_cast hv
+  have hhalf : val (⟨1, -1, false⟩ : F) = 1 / 2 := by simp [val]
+  have hm1 := mul_err (F32.ofInt v) ⟨1, -1, false⟩
+  rw [hhalf] at hm1
+  generalize hX : F32.ofInt v = X at *
+  generalize hY : mul X ⟨1, -1, false⟩ = Y at *
+  have hYb : |val Y - (v : ℚ) / 2| ≤ 2049 * u := by
+    have e : val Y - (v : ℚ) / 2 = (val Y - val X * (1 / 2)) + (val X - (v : ℚ)) * (1 / 2) := by ring
+    rw [e]
+    have t1 : |val X * (1 / 2)| ≤ 2049 / 2 := by rw [abs_mul, abs_of_pos (by norm_num : (0 : ℚ) < 1 / 2)]; linarith
+    have t2 : |(val X - (v : ℚ)) * (1 / 2)| ≤ 2048 * u / 2 := by rw [abs_mul, abs_of_pos (by norm_num : (0 : ℚ) < 1 / 2)]; linarith
+    have hm1' : |val Y - val X * (1 / 2)| ≤ 2049 / 2 * u := le_trans hm1 (mul_le_mul_of_nonneg_right t1 (le_of_lt hu))
+    have := abs_add_le (val Y - val X * (1 / 2)) ((val X - (v : ℚ)) * (1 / 2))
+    linarith
+  have hYm : |val Y| ≤ 1026 := by
+    have := abs_add_le (val Y - (v : ℚ) / 2) ((v : ℚ) / 2)
+    simp only [sub_add_cancel] at this
+    have h1024 : |(v : ℚ) / 2| ≤ 1024 := by rw [abs_div, abs_of_pos (by norm_num : (0 : ℚ) < 2)]; linarith
+    have : 2049 * u ≤ 1 := by unfold u; norm_num
+    linarith
+  have hsx : (X.m < 0 → val Y ≤ 0) ∧ (¬ X.m < 0 → 0 ≤ val Y) := by
+    constructor
+    · intro hneg
+      have hx0 : val X ≤ 0 := by
+        unfold val
+        have : (X.m : ℚ) ≤ 0 := by exact_mod_cast (le_of_lt hneg)
+        exact mul_nonpos_of_nonpos_of_nonneg this (le_of_lt (two_zpow_pos _))
+      rw [abs_of_nonpos (by linarith : val X * (1 / 2) ≤ 0)] at hm1
+      obtain ⟨_, m2⟩ := abs_le.1 hm1
+      have h3 : -(val X * (1 / 2)) * u ≤ -(val X * (1 / 2)) * 1 :=
+        mul_le_mul_of_nonneg_left (by linarith) (by linarith)
+      linarith
+    · intro hpos
+      have hx0 : 0 ≤ val X := by
+        unfold val
+        have : (0 : ℚ) ≤ X.m := by exact_mod_cast (not_lt.1 hpos)
+        exact mul_nonneg this (le_of_lt (two_zpow_pos _))
+      rw [abs_of_nonneg (by linarith : 0 ≤ val X * (1 / 2))] at hm1
+      obtain ⟨m1, _⟩ := abs_le.1 hm1
+      have h3 : val X * (1 / 2) * u ≤ val X * (1 / 2) * 1 :=
+        mul_le_mul_of_nonneg_left (by linarith) (by linarith)
+      linarith
+  have hfin := finish_bound' Y X 1026 hYm hsx.1 hsx.2
+  have hrd := roundDiv_err s (S * S) (by unfold S; norm_num)
+  have hSS : ((S * S : Int) : ℚ) = (S : ℚ) * (S : ℚ) := by push_cast; rfl
+  rw [hSS, hs2] at hrd
+  have hc1 := tab_close 0 p (by norm_num) hx
+  have hc2 := tab_close 0 q (by norm_num) hy
+  rw [bq0_const _ hx, bq00_val] at hc1
+  rw [bq0_const _ hy, bq00_val] at hc2
+  have hideal : |(v : ℚ) / 8 - (v : ℚ) * dm 0 p * dm 0 q| ≤ 2048 * (14 * u) := by
+    generalize dm 0 p = a at *
+    generalize dm 0 q = b at *
+    have hab : |1 / 8 - a * b| ≤ 14 * u := prod_near a b hc1 hc2
+    have e : (v : ℚ) / 8 - (v : ℚ) * a * b = (v : ℚ) * (1 / 8 - a * b) := by ring
+    rw [e, abs_mul]
+    exact mul_le_mul hvq hab (abs_nonneg _) (by norm_num)
+  have hnum : 1 / 2 + (1026 * u + u) + 2049 * u / 4 + 2048 * (14 * u) + 1 / 2 < 2 := by unfold u; norm_num
+  have hclose : |((trunc (add (quarter Y) (halfSignum X)) : Int) : ℚ) - ((roundDiv s (S * S) : Int) : ℚ)| < 2 := by
+    have e : ((trunc (add (quarter Y) (halfSignum X)) : Int) : ℚ) - ((roundDiv s (S * S) : Int) : ℚ) =
+        (((trunc (add (quarter Y) (halfSignum X)) : Int) : ℚ) - val Y / 4) + (val Y / 4 - (v : ℚ) / 8) +
+        ((v : ℚ) / 8 - (v : ℚ) * dm 0 p * dm 0 q) +
+        ((v : ℚ) * dm 0 p * dm 0 q - ((roundDiv s (S * S) : Int) : ℚ)) := by ring
+    rw [e]
+    have h4 : |val Y / 4 - (v : ℚ) / 8| ≤ 2049 * u / 4 := by
+      have e2 : val Y / 4 - (v : ℚ) / 8 = (val Y - (v : ℚ) / 2) / 4 := by ring
+      rw [e2, abs_div, abs_of_pos (by norm_num : (0 : ℚ) < 4)]
+      exact div_le_div_of_nonneg_right hYb (by norm_num)
+    rw [abs_sub_comm] at hrd
+    have a1 := abs_add_le ((((trunc (add (quarter Y) (halfSignum X)) : Int) : ℚ) - val Y / 4) + (val Y / 4 - (v : ℚ) / 8) +
+      ((v : ℚ) / 8 - (v : ℚ) * dm 0 p * dm 0 q))
+      ((v : ℚ) * dm 0 p * dm 0 q - ((roundDiv s (S * S) : Int) : ℚ))
+    have a2 := abs_add_three (((trunc (add (quarter Y) (halfSignum X)) : Int) : ℚ) - val Y / 4) (val Y / 4 - (v : ℚ) / 8)
+      ((v : ℚ) / 8 - (v : ℚ) * dm 0 p * dm 0 q)
+    linarith
+  have hint : (trunc (add (quarter Y) (halfSignum X)) - roundDiv s (S * S)).natAbs ≤ 1 := by
+    have : |(((trunc (add (quarter Y) (halfSignum X)) - roundDiv s (S * S) : Int)) : ℚ)| < 2 := by
+      push_cast; exact hclose
+    rw [← Int.cast_abs] at this
+    have h2 : |trunc (add (quarter Y) (halfSignum X)) - roundDiv s (S * S)| < 2 := by exact_mod_cast this
+    rw [abs_lt] at h2
+    omega
+  unfold toI16Clamp clip
+  simp only
+  generalize trunc (add (quarter Y) (halfSignum X)) = t at hint ⊢
+  generalize roundDiv s (S * S) = n at hint ⊢
+  split <;> split <;> (try split) <;> (try split) <;> omega
+
+open H263V.Lemmas.AnnexA in
+/-- **DC shortcut, every DC value** (by error analysis; the same statement is also evaluated over all 4095 values by `dc_only_peak`) -/
+theorem dc_within_one (v : Int) (hv : v.natAbs ≤ 2048) (i : Nat) (hi : i < 64) :
+    ((shapeIdct (.dc v)).getD i 0 - (refIdct (dcBlock v)).getD i 0).natAbs ≤ 1 := by
+  have hx : i % 8 < 8 := Nat.mod_lt _ (by norm_num)
+  have hy : i / 8 < 8 := by omega
+  obtain ⟨s, hs1, hs2⟩ := ref_value (dcBlock v) (i % 8) (i / 8) hx hy
+  have hi8 : 8 * (i / 8) + i % 8 = i := by omega
+  rw [hi8] at hs1
+  rw [R2_dcBlock] at hs2
+  rw [hs1]
+  have hm : (shapeIdct (.dc v)).getD i 0 = (finishDc v).1 := by
+    unfold shapeIdct blockResidual
+    simp only
+    rw [getD_ofFn, dif_pos hi]
+  rw [hm]
+  exact dc_core v hv (i % 8) (i / 8) hx hy s hs2
+
+/-! ### every block shape at once -/
+
+theorem R2_row_gen (d l : List Int) (hc : ∀ r c, r < 8 → c < 8 → coefQ d r c = if r = 0 then coefQ l 0 c else 0) (x y : Nat) :
+    R2 d x y = R1 l 0 x * dm 0 y := by
+  have h0 : R1 d 0 x = R1 l 0 x := by
+    unfold R1
+    refine congrArg List.sum (List.map_congr_left fun c hcc => ?_)
+    rw [List.mem_range] at hcc
+    rw [hc 0 c (by norm_num) hcc]; simp
+  have hz : ∀ r, 1 ≤ r → r < 8 → R1 d r x = 0 := by
+    intro r h1 h8
+    unfold R1
+    have : ((List.range 8).map fun c => coefQ d r c * dm c x) = (List.range 8).map fun _ => (0 : ℚ) := by
+      refine List.map_congr_left fun c hcc => ?_
+      rw [List.mem_range] at hcc
+      rw [hc r c h8 hcc, if_neg (by omega)]; simp
+    rw [this]; simp
+  unfold R2
+  rw [sum_range8, h0, hz 1 (by norm_num) (by norm_num), hz 2 (by norm_num) (by norm_num), hz 3 (by norm_num) (by norm_num),
+    hz 4 (by norm_num) (by norm_num), hz 5 (by norm_num) (by norm_num), hz 6 (by norm_num) (by norm_num), hz 7 (by norm_num) (by norm_num)]
+  ring
+
+theorem R2_col_gen (d l : List Int) (hc : ∀ r c, r < 8 → c < 8 → coefQ d r c = if c = 0 then coefQ l 0 r else 0) (x y : Nat) :
+    R2 d x y = R1 l 0 y * dm 0 x := by
+  have h1 : ∀ r, r < 8 → R1 d r x = coefQ l 0 r * dm 0 x := by
+    intro r hr
+    unfold R1
+    rw [sum_range8]
+    rw [hc r 0 hr (by norm_num), hc r 1 hr (by norm_num), hc r 2 hr (by norm_num), hc r 3 hr (by norm_num),
+      hc r 4 hr (by norm_num), hc r 5 hr (by norm_num), hc r 6 hr (by norm_num), hc r 7 hr (by norm_num)]
+    simp
+  unfold R2
+  have : ((List.range 8).map fun r => R1 d r x * dm r y) = (List.range 8).map fun r => (coefQ l 0 r * dm r y) * dm 0 x := by
+    refine List.map_congr_left fun r hr => ?_
+    rw [List.mem_range] at hr
+    rw [h1 r hr]; ring
+  rw [this]
+  unfold R1
+  rw [sum_range8, sum_range8]
+  ring
+
+open H263V.Lemmas.RlePlacement in
+theorem expand_getD_horiz (row : List Int) (k : Nat) (hk : k < 64) :
+    (expand (.horiz row)).getD k 0 = if k < 8 then row.getD k 0 else 0 := by
+  unfold expand
+  simp [List.getD_eq_getElem?_getD, List.getElem?_map, List.getElem?_range, hk]
+
+open H263V.Lemmas.RlePlacement in
+theorem expand_getD_vert (col : List Int) (k : Nat) (hk : k < 64) :
+    (expand (.vert col)).getD k 0 = if k % 8 = 0 then col.getD (k / 8) 0 else 0 := by
+  unfold expand
+  simp [List.getD_eq_getElem?_getD, List.getElem?_map, List.getElem?_range, hk]
+
+open H263V.Lemmas.RlePlacement in
+theorem expand_getD_dc (v : Int) (k : Nat) (hk : k < 64) : (expand (.dc v)).getD k 0 = if k = 0 then v else 0 := by
+  unfold expand
+  rw [List.getD_eq_getElem?_getD]
+  by_cases h0 : k = 0
+  · subst h0; rfl
+  · rw [if_neg h0, List.getElem?_set_ne (by omega), List.getElem?_replicate, if_pos hk]; rfl
+
+open H263V.Lemmas.AnnexA H263V.Lemmas.RlePlacement in
+/-- **Every block shape.**  Whatever shape `inverse_rle` stored (C11: it stands for the 64 levels `expand b`), with entries of
+magnitude at most 2048: every sample of the residual the decoder adds is within 1 of the reference inverse transform of those 64
+levels. -/
+theorem residual_within_one (b : Dct) (hb : Dct.Bounded b) (res : Nat → Nat → Int) (bad : Bool)
+    (h : blockResidual b = some (res, bad)) (x y : Nat) (hx : x < 8) (hy : y < 8) :
+    (res x y - (refIdct (expand b).toArray).getD (8 * y + x) 0).natAbs ≤ 1 := by
+  obtain ⟨s, hs1, hs2⟩ := ref_value (expand b).toArray x y hx hy
+  rw [hs1]
+  have htl : (expand b).toArray.toList = expand b := by simp
+  rw [htl] at hs2
+  cases b with
+  | zero => simp [blockResidual] at h
+  | dc v =>
+    have hv : v.natAbs ≤ 2048 := hb
+    have hR : R2 (expand (.dc v)) x y = (v : ℚ) * dm 0 x * dm 0 y := by
+      have := R2_row_gen (expand (.dc v)) [v] (by
+        intro r c hr hc
+        unfold coefQ
+        rw [expand_getD_dc v _ (by omega)]
+        by_cases hr0 : r = 0
+        · subst hr0
+          by_cases hc0 : c = 0
+          · subst hc0; simp
+          · rw [if_neg (by omega), if_pos rfl]
+            obtain ⟨j, rfl⟩ : ∃ j, c = j + 1 := ⟨c - 1, by omega⟩
+            simp
+        · rw [if_neg (by omega), if_neg hr0]; simp) x y
+      rw [this]
+      unfold R1
+      rw [sum_range8]
+      unfold coefQ
+      simp
+    rw [hR] at hs2
+    have := dc_core v hv x y hx hy s hs2
+    unfold blockResidual at h
+    simp only [Option.some.injEq, Prod.mk.injEq] at h
+    rw [← h.1]
+    exact this
+  | horiz row =>
+    have hrb : ∀ v ∈ row, v.natAbs ≤ 2048 := hb
+    have hR : R2 (expand (.horiz row)) x y = R1 row 0 x * dm 0 y :=
+      R2_row_gen _ row (by
+        intro r c hr hc
+        unfold coefQ
+        rw [expand_getD_horiz row _ (by omega)]
+        by_cases hr0 : r = 0
+        · subst hr0; simp [hc]
+        · rw [if_neg (by omega), if_neg hr0]; simp) x y
+    rw [hR] at hs2
+    have := line_core row hrb x y hx hy s hs2
+    unfold blockResidual at h
+    simp only [Option.some.injEq, Prod.mk.injEq] at h
+    rw [← h.1]
+    exact this
+  | vert col =>
+    have hcb : ∀ v ∈ col, v.natAbs ≤ 2048 := hb
+    have hR : R2 (expand (.vert col)) x y = R1 col 0 y * dm 0 x :=
+      R2_col_gen _ col (by
+        intro r c hr hc
+        unfold coefQ
+        rw [expand_getD_vert col _ (by omega)]
+        have e1 : (8 * r + c) / 8 = r := by omega
+        have e2 : (8 * r + c) % 8 = c := by omega
+        rw [e1, e2]
+        by_cases hc0 : c = 0
+        · simp [hc0]
+        · simp [hc0]) x y
+    rw [hR] at hs2
+    have := line_core col hcb y x hy hx s hs2
+    unfold blockResidual at h
+    simp only [Option.some.injEq, Prod.mk.injEq] at h
+    rw [← h.1]
+    exact this
+  | full d =>
+    have hdb : ∀ v ∈ d, v.natAbs ≤ 2048 := hb
+    have := full_within_one d.toArray (by simpa using hdb) (8 * y + x) (by omega)
+    have e1 : (8 * y + x) / 8 = y := by omega
+    have e2 : (8 * y + x) % 8 = x := by omega
+    have hm : (modelIdct d.toArray).getD (8 * y + x) 0 = res x y := by
+      unfold modelIdct
+      have : d.toArray.toList = d := by simp
+      rw [this, h]
+      simp only
+      rw [getD_ofFn, dif_pos (by omega)]
+      simp only [e1, e2]
+    rw [hm] at this
+    have he : expand (.full d) = d := rfl
+    rw [he] at hs1
+    rw [← hs1]
+    exact this
 
 end H263V.Lemmas.IdctErr
